@@ -247,6 +247,23 @@ pub fn check_case(tm: &'static TraitMeta, mi: usize, case: &Case, st: &mut Stats
         };
     }
     let label = format!("{}::{}({}) -> {}", tm.name, mm.name, mm.args.join(", "), mm.ret);
+    // An argument that is itself an AbiConnection ("wrapped") makes the reference run go
+    // through savefile-abi too: a misbehaving reference run is then a finding about the code,
+    // not a harness problem.
+    let reference_uses_abi = case.args.iter().any(|a| a["wrapped"].as_bool() == Some(true));
+    tags.insert("wrapped_arg".into(), reference_uses_abi.to_string());
+    macro_rules! reference_broken {
+        ($oracle:expr, $msg:expr) => {{
+            let msg: String = $msg;
+            if reference_uses_abi {
+                fail!($oracle, &tags, format!("(reference run with an AbiConnection-wrapped argument) {}", msg));
+                out.violations = viol;
+            } else {
+                out.machinery = Some(msg);
+            }
+            return out;
+        }};
+    }
 
     // the direct run is the reference: it must itself be well-formed
     if !matches!(direct.connect, Connect::Ok) {
@@ -280,7 +297,6 @@ pub fn check_case(tm: &'static TraitMeta, mi: usize, case: &Case, st: &mut Stats
         }
     }
     st.add("traces_validated", 1);
-    st.add("transitions", 0); // filled from CALLS by the caller
 
     // ---- classification (non-triviality), measured on the ABI run
     let (flex, size) = model_block(mm, &case.args, &abi.passable);
@@ -331,8 +347,7 @@ pub fn check_case(tm: &'static TraitMeta, mi: usize, case: &Case, st: &mut Stats
         st.add("evaluations", 3);
         match (&direct.panic1, &abi.panic1) {
             (None, _) => {
-                out.machinery = Some(format!("direct run of {} did not panic for payload {}", label, case.panic));
-                return out;
+                reference_broken!("panic_propagates", format!("direct run of {} did not panic for payload {}", label, case.panic));
             }
             (Some(_), None) => {
                 st.add("oc.panic_lost", 1);
@@ -361,8 +376,7 @@ pub fn check_case(tm: &'static TraitMeta, mi: usize, case: &Case, st: &mut Stats
     } else {
         st.add("evaluations", 1);
         if direct.panic1.is_some() {
-            out.machinery = Some(format!("direct run of {} panicked unexpectedly: {:?}", label, direct.panic1));
-            return out;
+            reference_broken!("panic_propagates", format!("direct run of {} panicked unexpectedly: {:?}", label, direct.panic1));
         }
         if let Some(p) = &abi.panic1 {
             st.add("oc.unexpected_panic", 1);
@@ -376,8 +390,7 @@ pub fn check_case(tm: &'static TraitMeta, mi: usize, case: &Case, st: &mut Stats
         }
     }
     if !direct.later_panics.is_empty() {
-        out.machinery = Some(format!("direct run of {} panicked in a later step: {:?}", label, direct.later_panics));
-        return out;
+        reference_broken!("stored_objects", format!("direct run of {} panicked in a later step: {:?}", label, direct.later_panics));
     }
 
     // ---- oracle: the two traces are equal (arguments, callbacks, return value, drop counts at
@@ -406,8 +419,7 @@ pub fn check_case(tm: &'static TraitMeta, mi: usize, case: &Case, st: &mut Stats
     let bad = |m: &Map<String, Value>| -> Vec<String> { m.iter().filter(|(_, n)| n.as_u64() != Some(1)).map(|(l, n)| format!("{}={}", l, n)).collect() };
     let dbad = bad(&direct.final_drops);
     if !dbad.is_empty() || direct.doubles != 0 {
-        out.machinery = Some(format!("direct run of {} does not drop exactly once: {:?} doubles={}", label, dbad, direct.doubles));
-        return out;
+        reference_broken!("drop_exactly_once", format!("direct run of {} does not drop exactly once: {:?} doubles={}", label, dbad, direct.doubles));
     }
     let abad = bad(&abi.final_drops);
     if !abad.is_empty() || abi.doubles != 0 {
